@@ -490,13 +490,16 @@ void* ordered_free_memory_list::allocate(std::size_t n) noexcept
 
 void ordered_free_memory_list::deallocate(void* ptr) noexcept
 {
-    auto node = static_cast<char*>(debug_fill_free(ptr, node_size_, 0));
+    auto node = static_cast<char*>(ptr);
 
     auto p =
         find_pos(allocator_info(FOONATHAN_MEMORY_LOG_PREFIX "::detail::ordered_free_memory_list",
                                 this),
                  node, begin_node(), end_node(), last_dealloc_, last_dealloc_prev_);
 
+    // only mark the memory as freed after the double-free check in find_pos,
+    // otherwise the links of an already free node would be overwritten before the report
+    debug_fill_free(ptr, node_size_, 0);
     xor_list_insert(node, p.prev, p.next);
     ++capacity_;
 
